@@ -5,7 +5,7 @@ import re
 from bounded import typegen as G
 from bounded.typegen import Ty
 from bounded.C11_observe import same_value, ObserveError, short
-from bounded.C11_core import Failure, exc_text, type_class, MODES, skeleton, collection_wclass, key_kinds, year_class
+from bounded.C11_core import Failure, exc_text, type_class, MODES, skeleton, collection_wclass, key_kinds, year_class, unordered
 from specs.C11_micheline_reader import read_value, SpecReject
 from specs import entrypoints as EP
 
@@ -90,7 +90,8 @@ def c12_failures(ty: Ty, aval, only=None, with_contract_data=True, stable=False,
             v2 = cls.from_python_object(py)
             ok, obs = same_value(ty, v2, aval)
             if not ok:
-                out.append(Failure('from_py::ensures.equal', f'Python object {short(py)} converts back to {short(obs)} instead of {short(aval)}'))
+                out.append(Failure('from_py::ensures.equal', f'Python object {short(py)} converts back to {short(obs)} instead of {short(aval)}',
+                                   order_only=unordered(G.canon_value(ty, obs)) == unordered(G.canon_value(ty, aval))))
         except ObserveError:
             raise
         except Exception as e:
@@ -131,13 +132,16 @@ def _contract_data(ty, cls, v, aval, py, modes=MODES):
         try:
             sv = read_value(ty, m, mode)
             if G.canon_value(ty, sv) != G.canon_value(ty, aval):
-                out.append(Failure(f'data.encode[{mode}]::ensures.denotes', f'encode({short(py)}) = {short(m)} denotes {short(sv)} instead of {short(aval)}'))
+                out.append(Failure(f'data.encode[{mode}]::ensures.denotes', f'encode({short(py)}) = {short(m)} denotes {short(sv)} instead of {short(aval)}',
+                                   order_only=unordered(G.canon_value(ty, sv)) == unordered(G.canon_value(ty, aval))))
         except SpecReject as e:
-            out.append(Failure(f'data.encode[{mode}]::ensures.denotes', f'encode({short(py)}) = {short(m)} is not a valid {mode} notation: {e}'))
+            out.append(Failure(f'data.encode[{mode}]::ensures.denotes', f'encode({short(py)}) = {short(m)} is not a valid {mode} notation: {e}',
+                               order_only='increasing Michelson order' in str(e)))
         try:
             back = cd.decode(m)
             if not py_equal(back, py):
-                out.append(Failure(f'data.decode_encode[{mode}]::ensures.identity', f'decode(encode(obj)) = {short(back)} for obj = {short(py)}'))
+                out.append(Failure(f'data.decode_encode[{mode}]::ensures.identity', f'decode(encode(obj)) = {short(back)} for obj = {short(py)}',
+                                   order_only=unordered(freeze(back)) == unordered(freeze(py))))
             else:
                 m2 = cd.encode(back, mode)
                 if m2 != m:
@@ -240,7 +244,7 @@ def c12_wclass(ty: Ty, v, f: Failure) -> str:
         if inner.prim == 'option' and v[1][0] == 'None':
             return 'option(option):Some(None)'
     if p in ('set', 'map', 'big_map'):
-        if has_name_collision(ty.args[0]):
+        if has_name_collision(ty.args[0]) and not (f.order_only or 'sorted' in f.info):
             return f'names:generated-name-collision:{p}-key'
         w = collection_wclass(ty, v, f.info)
         if w:
